@@ -27,7 +27,7 @@ pub fn check(tier: Tier) -> Check {
         also_rel: false,
         property: "C02",
         level: "exploration",
-        rule: "every server packet type x subsets of the properties legal for it (CONNACK: quick = all subsets of size <=3 in every order and >=15 in identity/reverse/rotated order, thorough = all 2^17 subsets x 3 orders; others: all subsets) x repeated user properties with duplicate keys x every legal reason code x short forms (PUBACK family 2/3/>=4, AUTH 0, DISCONNECT 0/1) x packet identifiers {1,127,128,255,256,16383,16384,65535} and subscription identifiers up to 268435455 (counters preset by the hook) x payload sizes crossing the 512/1024-byte buffer steps x boundary string lengths; read back through ConnectRsp/ConnectError/AuthRsp/SubscribeRsp/UnsubscribeRsp/PublishData/Puback-Pubrec-PubcompError/Disconnected accessors; distinct_nontrivial = distinct packets whose values were read back".into(),
+        rule: "every server packet type x subsets of the properties legal for it (CONNACK: quick = all subsets of size <=4 (<=3 in every order) and >=14 in identity/reverse/rotated order, thorough = all 2^17 subsets x 3 orders; others: all subsets) x repeated user properties with duplicate keys x every legal reason code x short forms (PUBACK family 2/3/>=4, AUTH 0, DISCONNECT 0/1) x packet identifiers {1,127,128,255,256,16383,16384,65535} and subscription identifiers up to 268435455 (counters preset by the hook) x payload sizes crossing the 512/1024-byte buffer steps x boundary string lengths; read back through ConnectRsp/ConnectError/AuthRsp/SubscribeRsp/UnsubscribeRsp/PublishData/Puback-Pubrec-PubcompError/Disconnected accessors; distinct_nontrivial = distinct packets whose values were read back".into(),
         assumptions: vec![
             "only property sets and reason codes the standard allows for the packet type; minimal variable byte integers".into(),
             "a successful CONNACK announcing Subscription Identifiers unavailable is excluded (documented assertion)".into(),
@@ -103,7 +103,7 @@ fn connack_masks(full: bool) -> Vec<u32> {
     let mut v = vec![];
     for m in 0..(1u32 << 17) {
         let c = m.count_ones();
-        if full || c <= 3 || c >= 15 {
+        if full || c <= 4 || c >= 14 {
             v.push(m);
         }
     }
